@@ -117,23 +117,45 @@ pub fn record_rewrite(a: &HashMap<String, String>) -> i32 {
     for i in 0..n {
         let nrules = 1 + rng.below(6);
         let ncols = 1 + rng.below(4);
-        let mut rules = vec![];
+        let mut rules: Vec<Value> = vec![];
+        let mut pats: Vec<Vec<Value>> = vec![];
         for k in 0..nrules {
-            let len = 1 + rng.below(ncols);
-            let pat: Vec<Value> = (0..len).map(|_| match rng.below(4) {
-                0 => json!({"k": "any"}),
-                1 => {
-                    let mut alts: Vec<&str> = vec![];
-                    for _ in 0..(1 + rng.below(3)) {
-                        let x = *rng.pick(&alpha);
-                        if !alts.contains(&x) {
-                            alts.push(x);
+            let fresh = |rng: &mut Rng| -> Value {
+                match rng.below(4) {
+                    0 => json!({"k": "any"}),
+                    1 => {
+                        let mut alts: Vec<&str> = vec![];
+                        for _ in 0..(1 + rng.below(3)) {
+                            let x = *rng.pick(&alpha);
+                            if !alts.contains(&x) {
+                                alts.push(x);
+                            }
                         }
+                        json!({"k": "alt", "v": alts})
                     }
-                    json!({"k": "alt", "v": alts})
+                    _ => json!({"k": "lit", "v": rng.pick(&alpha)}),
                 }
-                _ => json!({"k": "lit", "v": rng.pick(&alpha)}),
-            }).collect();
+            };
+            // half of the rules are derived from an earlier one (shared prefixes of different
+            // lengths: truncate, extend, or change the last cell), the others are fresh
+            let pat: Vec<Value> = if !pats.is_empty() && rng.chance(1, 2) {
+                let mut p = rng.pick(&pats).clone();
+                match rng.below(3) {
+                    0 if p.len() > 1 => {
+                        p.truncate(1 + rng.below(p.len() - 1));
+                    }
+                    1 => p.push(fresh(&mut rng)),
+                    _ => {
+                        let n = p.len();
+                        p[n - 1] = fresh(&mut rng);
+                    }
+                }
+                p
+            } else {
+                let len = 1 + rng.below(ncols);
+                (0..len).map(|_| fresh(&mut rng)).collect()
+            };
+            pats.push(pat.clone());
             let olen = 1 + rng.below(4);
             let mut out: Vec<Value> = vec![json!({"k": "text", "v": format!("R{k}")})];
             for _ in 0..olen {
@@ -142,9 +164,23 @@ pub fn record_rewrite(a: &HashMap<String, String>) -> i32 {
             rules.push(json!({"pat": pat, "out": out}));
         }
         let mut lists = vec![];
-        for _ in 0..12 {
-            let len = rng.below(ncols + 2);
-            lists.push((0..len).map(|_| rng.pick(&alpha).to_string()).collect::<Vec<_>>());
+        for _ in 0..16 {
+            if rng.chance(1, 2) {
+                // an instance of some rule's pattern, possibly extended
+                let p = rng.pick(&pats).clone();
+                let mut fs: Vec<String> = p.iter().map(|c| match c["k"].as_str().unwrap() {
+                    "lit" => c["v"].as_str().unwrap().to_string(),
+                    "alt" => c["v"][0].as_str().unwrap().to_string(),
+                    _ => rng.pick(&alpha).to_string(),
+                }).collect();
+                for _ in 0..rng.below(3) {
+                    fs.push(rng.pick(&alpha).to_string());
+                }
+                lists.push(fs);
+            } else {
+                let len = rng.below(ncols + 2);
+                lists.push((0..len).map(|_| rng.pick(&alpha).to_string()).collect::<Vec<_>>());
+            }
         }
         writeln!(f, "{}", rewrite_event(&Value::Array(rules), (i % 3) as u8, &lists)).unwrap();
     }
